@@ -2,17 +2,40 @@
    verified validity checker (Model.Tree.check, C07) evaluated in Coq, round trips are compared in Coq, and
    the context-expression matcher is modelled (Model/DomCtx.v). *)
 From Coq Require Import ZArith NArith List Bool Arith String.
-From PM Require Export Model.Data Model.Mark Model.Tree Model.DomCtx Corr.Common Corr.Tree.
+From PM Require Export Model.Data Model.Mark Model.Tree Model.DomCtx Model.ToDom Corr.Common Corr.Tree.
 Import ListNotations.
 
 Inductive case :=
 | CParse (s : schema) (obs : res node)                          (* from_html on a generated fragment *)
 | CRoundTrip (s : schema) (doc : node) (serialised_ok escaped_ok : bool) (back : res node)
-| CContext (s : schema) (stack : list nat) (alts : list (list string)) (obs : res bool).
+| CContext (s : schema) (stack : list nat) (alts : list (list string)) (obs : res bool)
+(* DOMSerializer.serialize_fragment with tagging renderers: the tree of wrappers it built, as observed.
+   [unrendered]: mark types the serializer was given no renderer for; [nonspanning]: mark types whose spec says spanning: False *)
+| CSerialize (s : schema) (unrendered nonspanning : list nat) (l : list node) (obs : res (list dom)).
+
+Fixpoint dom_eqb (x y : dom) {struct x} : bool :=
+  match x, y with
+  | DText a, DText b => cps_eqb a b
+  | DLeafN t a, DLeafN t' a' => Nat.eqb t t' && attrs_eqb a a'
+  | DElem t a k, DElem t' a' k' =>
+    Nat.eqb t t' && attrs_eqb a a' &&
+    (fix go (l1 l2 : list dom) {struct l1} : bool :=
+       match l1, l2 with [], [] => true | p :: r, q :: r' => dom_eqb p q && go r r' | _, _ => false end) k k'
+  | DMark m k, DMark m' k' =>
+    mark_eqb m m' &&
+    (fix go (l1 l2 : list dom) {struct l1} : bool :=
+       match l1, l2 with [], [] => true | p :: r, q :: r' => dom_eqb p q && go r r' | _, _ => false end) k k'
+  | _, _ => false
+  end.
+
+Definition nat_in (x : nat) (l : list nat) : bool := existsb (Nat.eqb x) l.
+Definition model_serialize (s : schema) (unrendered nonspanning : list nat) (l : list node) : list dom :=
+  ser_fragment s (fun m => negb (nat_in (m_ty m) unrendered)) (fun m => negb (nat_in (m_ty m) nonspanning)) l.
 
 Definition agree (c : case) : bool :=
   match c with
   | CContext s stack alts obs => res_eqb Bool.eqb (Ok (matches_context s stack alts)) obs
+  | CSerialize s un ns l obs => res_eqb (list_eqb dom_eqb) (Ok (model_serialize s un ns l)) obs
   | _ => true
   end.
 
@@ -22,4 +45,17 @@ Definition holds (c : case) : bool :=
   | CRoundTrip s doc ser esc back =>
     ser && esc && match back with Ok d => node_eqb d doc | Err _ => false end
   | CContext s stack alts obs => is_ok obs
+  | CSerialize s un ns l obs =>
+    (* every node of the fragment sits, in order, inside wrappers for exactly its rendered marks *)
+    match obs with
+    | Ok ds =>
+      let fl := (fix flat (enc : list mark) (d : dom) {struct d} : list (list mark) :=
+                   match d with
+                   | DMark m kids => (fix go (k : list dom) : list (list mark) := match k with [] => [] | x :: r => flat (enc ++ [m]) x ++ go r end) kids
+                   | _ => [enc]
+                   end) in
+      list_eqb marks_eqb (flat_map (fl []) ds)
+               (List.map (fun c => filter (fun m => negb (nat_in (m_ty m) un)) (node_marks c)) l)
+    | Err _ => false
+    end
   end.
